@@ -15,14 +15,17 @@ documented rewrites; ``Final``: from a shell command to the argv of the process 
 2. (B, level 2) generated projects (stub NINJA) place every test string in every command position
    (c_args / link_args: option, global, project, target, -D and /D forms; custom_target plain /
    capture / feed / env / environment() / capture+env; run_target (+env); generator (+capture,
-   +env); test / benchmark args, env, workdir; response-file mode via MESON_RSP_THRESHOLD=0).  The raw
+   +env); test / benchmark args, env, workdir; response-file mode via MESON_RSP_THRESHOLD=0; environment
+   VALUES in every spelling - dict, list of 'K=V', a single 'K=V', environment({..}) / ([..]) / ('K=V'),
+   environment(x, method:, separator:), env.set/append/prepend(.., separator:) - for test, custom_target,
+   run_target, generator.process and meson.add_devenv, over an ambient environment).  The raw
    rule and build-block text (``c03_raw``), the paths (``ninja_ref``), the unpickled
    ``meson_exe_*.dat`` / ``meson_test_setup.dat`` go to TLC, which expands, splits, unwraps and
    compares with ``Expected``.
 3. (level 3, environment validation) the same expanded command lines are run by the real
    ``/bin/sh -c`` with a compiled argv dumper as tool (compiler shim on PATH, real ``env``, real
    ``meson --internal exe``), tests by the real ``meson test --repeat 3`` (every execution of every test
-   object is compared); families of serialised commands whose argument lists differ only in where the
+   object is compared), the developer environment by the real ``meson devenv``; families of serialised commands whose argument lists differ only in where the
    boundaries fall share one build directory (each must run with its own argv); the recorded argv/env must equal the
    argv the spec decoders computed - a disagreement is a MachineryError (the environment model is
    wrong), never a violation.
@@ -37,6 +40,7 @@ import re
 import shutil
 import subprocess
 import sys
+import time
 import typing as T
 from concurrent.futures import ProcessPoolExecutor
 from pathlib import Path
@@ -64,13 +68,15 @@ static void hex(const char *s, size_t n) {
     for (i = 0; i < n; i++) { char h[2]; h[0] = d[((unsigned char)s[i]) >> 4]; h[1] = d[((unsigned char)s[i]) & 15]; put(h, 2); }
     put("\"", 1);
 }
-/* appends ONE line {"argv":[hex..],"env":{"C03V..":hex}} to $C03_DUMP, or to $C03_DUMP_DIR/<argv[1]> */
+/* appends ONE line {"argv":[hex..],"env":{"C03V..":hex}} to $C03_DUMP, or to $C03_DUMP_DIR/<tag>, tag the first
+   argument that starts with C03T (argv[1] if there is none) */
 int main(int argc, char **argv) {
     const char *path = getenv("C03_DUMP"); char tmp[4096]; int i, fd, first = 1; char **e;
     if (!path) {
-        const char *dir = getenv("C03_DUMP_DIR");
-        if (!dir || argc < 2 || strchr(argv[1], '/') || strlen(dir) + strlen(argv[1]) + 2 > sizeof tmp) return 0;
-        snprintf(tmp, sizeof tmp, "%s/%s", dir, argv[1]); path = tmp;
+        const char *dir = getenv("C03_DUMP_DIR"); const char *tag = argc >= 2 ? argv[1] : 0;
+        for (i = 1; i < argc; i++) if (strncmp(argv[i], "C03T", 4) == 0) { tag = argv[i]; break; }
+        if (!dir || !tag || strchr(tag, '/') || strlen(dir) + strlen(tag) + 2 > sizeof tmp) return 0;
+        snprintf(tmp, sizeof tmp, "%s/%s", dir, tag); path = tmp;
     }
     put("{\"argv\":[", 9);
     for (i = 0; i < argc; i++) { if (i) put(",", 1); hex(argv[i], strlen(argv[i])); }
@@ -150,6 +156,126 @@ def mlit(s: str) -> str:
 
 def mlist(xs: T.Iterable[str]) -> str:
     return '[' + ', '.join(xs) + ']'
+
+
+# ---------------------------------------------------------------------------
+# environment values: what a build definition says (entries of ArgFidelity!ExpectedEnv) and how it spells it
+
+ENV_SPELLINGS = ['list', 'str', 'envobj-dict', 'envobj-list', 'envobj-str', 'envobj-kw', 'methods']
+ENV_BUILD_CONSUMERS = ['custom_target', 'run_target', 'generator']
+ENV_CONSUMERS = ['test', 'run_command'] + ENV_BUILD_CONSUMERS + ['devenv']
+ENV_POSITIONS = [f'{c}.envvalue-{sp}' for c in ENV_CONSUMERS for sp in ENV_SPELLINGS]
+SEPARATORS = [':', ';', ' ', '', ', ', '=', '\t', "'", '$x', '\\', ' : ', '"']
+
+EnvEntry = T.Dict[str, T.Any]
+
+
+def e_pair(op: str, name: str, values: T.Sequence[str], sep: str = ':') -> EnvEntry:
+    return {'form': 'pair', 'op': op, 'name': name, 'values': list(values), 'sep': sep}
+
+
+def e_str(op: str, text: str, sep: str = ':') -> EnvEntry:
+    return {'form': 'string', 'op': op, 'name': '', 'values': [text], 'sep': sep}
+
+
+def dict_spec(pairs: T.Iterable[T.Tuple[str, str]]) -> T.List[EnvEntry]:
+    return [e_pair('set', a, [b]) for a, b in pairs]
+
+
+def spec_cp(spec: T.Iterable[EnvEntry]) -> T.List[T.Dict[str, T.Any]]:
+    return [{'form': e['form'], 'op': e['op'], 'name': cp(e['name']), 'values': [cp(v) for v in e['values']], 'sep': cp(e['sep'])}
+            for e in spec]
+
+
+def pairs_cp(pairs: T.Iterable[T.Sequence[str]]) -> T.List[T.List[T.List[int]]]:
+    return [[cp(a), cp(b)] for a, b in pairs]
+
+
+def spec_names(spec: T.Iterable[EnvEntry]) -> T.List[str]:
+    """Names in order of first mention (bookkeeping for signatures only; the verdict is TLC's)."""
+    out: T.List[str] = []
+    for e in spec:
+        n = e['values'][0].split('=', 1)[0] if e['form'] == 'string' else e['name']
+        if n not in out:
+            out.append(n)
+    return out
+
+
+def spec_strings(spec: T.Iterable[EnvEntry]) -> T.List[str]:
+    out = []
+    for e in spec:
+        out += [v.split('=', 1)[1] for v in e['values']] if e['form'] == 'string' else list(e['values'])
+    return out
+
+
+def render_env(spelling: str, pairs: T.List[T.Tuple[str, str]], uid: int, rnd: random.Random,
+               ambient: T.List[T.Tuple[str, str]]) -> T.Dict[str, T.Any]:
+    """One spelling of the environment NAME_j=VALUE_j: {'pre': statements in front, 'expr': the expression for
+    `env:', 'direct': (X, kwargs text) when X can also be given to meson.add_devenv(X, ...) itself, 'spec': entries}."""
+    def dct(ps: T.Iterable[T.Tuple[str, T.Any]]) -> str:
+        return '{' + ', '.join(f'{mlit(a)}: {mlist(mlit(x) for x in b) if isinstance(b, list) else mlit(b)}' for a, b in ps) + '}'
+
+    def lst(ps: T.Iterable[T.Tuple[str, str]]) -> str:
+        return mlist(mlit(f'{a}={b}') for a, b in ps)
+
+    if spelling == 'dict':
+        return {'pre': [], 'expr': dct(pairs), 'direct': (dct(pairs), ''), 'spec': dict_spec(pairs)}
+    if spelling == 'list':
+        return {'pre': [], 'expr': lst(pairs), 'direct': (lst(pairs), '') if len(pairs) == 1 else None,
+                'spec': [e_str('set', f'{a}={b}') for a, b in pairs]}
+    if spelling == 'str':
+        a, b = pairs[0]
+        return {'pre': [], 'expr': mlit(f'{a}={b}'), 'direct': (mlit(f'{a}={b}'), ''), 'spec': [e_str('set', f'{a}={b}')]}
+    if spelling == 'envobj-dict':
+        return {'pre': [], 'expr': f'environment({dct(pairs)})', 'direct': None, 'spec': dict_spec(pairs)}
+    if spelling == 'envobj-list':
+        return {'pre': [], 'expr': f'environment({lst(pairs)})', 'direct': None, 'spec': [e_str('set', f'{a}={b}') for a, b in pairs]}
+    if spelling == 'envobj-str':
+        a, b = pairs[0]
+        return {'pre': [], 'expr': f'environment({mlit(a + "=" + b)})', 'direct': None, 'spec': [e_str('set', f'{a}={b}')]}
+    if spelling == 'envobj-kw':
+        # environment(X, method: M, separator: S): X a dictionary (some values lists, joined by S), a list of
+        # 'K=V' or a single 'K=V'; one name may be a variable of the ambient environment
+        method = rnd.choice(['set', 'append', 'prepend'])
+        sep = rnd.choice(SEPARATORS)
+        ps = list(pairs)
+        if ambient and rnd.random() < 0.7:
+            ps[0] = (rnd.choice(ambient)[0], ps[0][1])
+        variant = rnd.randrange(3)
+        kw = f', method: {mlit(method)}, separator: {mlit(sep)}'
+        if variant == 0:
+            vals = [(a, [b] + ([rnd.choice(pairs)[1]] if rnd.random() < 0.4 else [])) for a, b in ps]
+            x = dct((a, v if len(v) > 1 or rnd.random() < 0.3 else v[0]) for a, v in vals)
+            spec = [e_pair(method, a, v, sep) for a, v in vals]
+            direct: T.Optional[T.Tuple[str, str]] = (x, kw)
+        elif variant == 1:
+            x = lst(ps)
+            spec = [e_str(method, f'{a}={b}', sep) for a, b in ps]
+            direct = (x, kw) if len(ps) == 1 else None
+        else:
+            a, b = ps[0]
+            x = mlit(f'{a}={b}')
+            spec = [e_str(method, f'{a}={b}', sep)]
+            direct = (x, kw)
+        return {'pre': [], 'expr': f'environment({x}{kw})', 'direct': direct, 'spec': spec}
+    if spelling == 'methods':
+        # env.set / append / prepend(name, value..., separator: S) in sequence; a name may come back (the later
+        # operation sees the earlier one) or be a variable of the ambient environment
+        var = f'env{uid}'
+        pre = [f'{var} = environment()']
+        spec = []
+        used: T.List[str] = []
+        for name, s in pairs:
+            op = rnd.choice(['set', 'append', 'prepend'])
+            r = rnd.random()
+            n = rnd.choice(used) if used and r < 0.25 else rnd.choice(ambient)[0] if ambient and r < 0.45 else name
+            vals = [s] + ([rnd.choice(pairs)[1]] if rnd.random() < 0.3 else [])
+            sep = None if rnd.random() < 0.5 else rnd.choice(SEPARATORS)
+            pre.append(f"{var}.{op}({mlit(n)}, {', '.join(mlit(v) for v in vals)}{'' if sep is None else ', separator: ' + mlit(sep)})")
+            spec.append(e_pair(op, n, vals, ':' if sep is None else sep))
+            used.append(n)
+        return {'pre': pre, 'expr': var, 'direct': None, 'spec': spec}
+    raise MachineryError('unknown env spelling ' + spelling)
 
 
 # ---------------------------------------------------------------------------
@@ -293,7 +419,7 @@ def edge_case(cid: str, edge: ninja_ref.Edge, raw: T.Dict[str, T.Any], spec: T.D
     c = {'id': cid, 'kind': 'edge', 'ins': [cp(x) for x in edge.ins], 'outs': [cp(x) for x in edge.outs],
          'block': tbl(raw['edges'][edge.lineno]), 'rule': tbl(rule), 'globals': tbl(raw['globals']),
          'pos': spec['tlcpos'], 'args': [cp(a) for a in spec['args']], 'bracket': spec.get('bracket', 0),
-         'env': [[cp(k), cp(v)] for k, v in spec.get('env', [])],
+         'envspec': spec_cp(spec.get('envspec', [])), 'ambient': pairs_cp(spec.get('ambient', [])),
          'tmpl': [[cp(k), [cp(v) for v in vs]] for k, vs in spec.get('tmpl', [])],
          'pickles': spec.get('pickles', []), 'has_ref': 1 if ref else 0, 'cmd_ref': cp(cmd_ref), 'rsp_ref': cp(rsp_ref),
          'has_real': 0, 'real': []}
@@ -328,6 +454,69 @@ def _worker_level1(args: T.Tuple[T.List[T.List[str]], str]) -> T.List[T.Dict[str
                               'outs': [{'f': 'var_write_rsp' if rsp else 'var_write', 'r': 0, 't': cp(text)}]})
                 continue
             cases.append(_edge_case_from_text(wid, text, 'out.o', {'tlcpos': 'link', 'args': wargs, 'bracket': 1}))
+    return cases
+
+
+def envfn_case(cid: str, f: str, spec: T.List[EnvEntry], ambient: T.List[T.Tuple[str, str]]) -> T.Dict[str, T.Any]:
+    """Render one environment specification as the call of the real code its form `f' names, and project the
+    environment the resulting object yields over the empty and over the ambient environment."""
+    from mesonbuild.interpreter.type_checking import env_convertor_with_method
+    from mesonbuild.utils.core import EnvironmentVariables
+    from mesonbuild import mesonlib as ml
+    c = {'id': cid, 'kind': 'envfn', 'f': f, 'envspec': spec_cp(spec), 'ambient': pairs_cp(ambient), 'r': 0, 'obs0': [], 'obs': []}
+    try:
+        if f == 'env_convertor:str':
+            obj = env_convertor_with_method(spec[0]['values'][0])
+        elif f == 'env_convertor:list':
+            obj = env_convertor_with_method([e['values'][0] for e in spec], spec[0]['op'], spec[0]['sep'])
+        elif f == 'env_convertor:dict':
+            obj = env_convertor_with_method({e['name']: (list(e['values']) if len(e['values']) > 1 else e['values'][0]) for e in spec},
+                                            spec[0]['op'], spec[0]['sep'])
+        elif f == 'env_object:methods':
+            obj = EnvironmentVariables()
+            for e in spec:
+                getattr(obj, e['op'])(e['name'], list(e['values']), e['sep'])
+        else:
+            raise MachineryError('unknown environment form ' + f)
+        c['obs0'] = pairs_cp(obj.get_env({}).items())
+        c['obs'] = pairs_cp(obj.get_env(dict(ambient)).items())
+    except ml.MesonException:
+        c['r'] = 1
+    return c
+
+
+def _worker_envfn(args: T.Tuple[T.List[str], str, int, int]) -> T.List[T.Dict[str, T.Any]]:
+    """Level 1 for environment values: the real convertor behind the `env:' keyword, environment() and
+    meson.add_devenv (string, list of strings, dictionary, with method and separator) and the real
+    env.set/append/prepend, on every text as VALUE; the environment the resulting object yields over the empty and
+    over an ambient environment is judged by TLC against E1-E3."""
+    strings, label, seed, short = args
+    common.use_repo_meson()
+    rnd = random.Random(f'C03/envfn/{seed}/{label}')
+    cases: T.List[T.Dict[str, T.Any]] = []
+
+    def one(f: str, spec: T.List[EnvEntry], ambient: T.List[T.Tuple[str, str]]) -> None:
+        cases.append(envfn_case(f'E{label}:{len(cases)}', f, spec, ambient))
+
+    for si, s in enumerate(strings):
+        t = rnd.choice(strings)
+        amb = [('C03VA', rnd.choice(strings) or 'amb')]
+        method = rnd.choice(['set', 'append', 'prepend'])
+        sep = rnd.choice(SEPARATORS)
+        # short texts meet all four forms, longer ones one of them in rotation
+        forms = range(4) if len(s) <= short else [si % 4]
+        if 0 in forms:      # a single 'K=V'
+            one('env_convertor:str', [e_str('set', 'C03V0=' + s)], amb)
+        if 1 in forms:      # a list of 'K=V': the value itself, with a further `=' inside, as the value of an ambient variable
+            one('env_convertor:list', [e_str(method, x, sep) for x in ('C03V0=' + s, 'C03V1=' + s + '=' + t, 'C03VA=' + t + s)], amb)
+        if 2 in forms:      # a dictionary, values strings or lists of strings joined by the separator
+            one('env_convertor:dict', [e_pair(method, 'C03V0', [s], sep), e_pair(method, 'C03V1', [s, t], sep),
+                                       e_pair(method, 'C03VA', [t, s, t], sep)], amb)
+        if 3 in forms:      # the methods of the environment object, in sequence
+            names = ['C03V0', 'C03V1', 'C03VA']
+            one('env_object:methods', [e_pair(rnd.choice(['set', 'append', 'prepend']), rnd.choice(names),
+                                              [s] + ([t] if rnd.random() < 0.4 else []), rnd.choice(SEPARATORS))
+                                       for _ in range(rnd.randint(2, 4))], amb)
     return cases
 
 
@@ -382,9 +571,13 @@ COMPILE_SHARED = ['c_args.option', 'c_args.global', 'c_args.project']
 LINK_SHARED = ['link_args.option', 'link_args.global', 'link_args.project']
 BOUNDARY_POSITIONS = ['custom_target.boundary', 'run_target.boundary', 'custom_target.boundary-envobj']
 CUSTOM_POSITIONS = ['custom_target', 'custom_target.capture', 'custom_target.feed', 'custom_target.env',
-                    'custom_target.envobj', 'custom_target.capture+env', 'custom_target.envvalue',
+                    'custom_target.envobj', 'custom_target.capture+env', 'custom_target.envvalue', 'custom_target.console',
                     'run_target', 'run_target.envvalue', 'generator', 'generator.capture', 'generator.envvalue',
-                    'test.args', 'test.envvalue', 'test.workdir', 'benchmark.args']
+                    'test.args', 'test.envvalue', 'test.workdir', 'benchmark.args',
+                    'run_command.args', 'run_command.envvalue', 'postconf_script.args', 'install_script.args']
+# commands meson itself runs, at configure time (run_command, add_postconf_script) or from `meson install'
+RAN_POSITIONS = {'run_command.args': 'configure', 'run_command.envvalue': 'configure', 'postconf_script.args': 'configure',
+                 'install_script.args': 'install'}
 TARGET_POSITIONS = ['c_args.target', 'c_args.target-D', 'link_args.target', 'link_args.shlib']
 ALL_POSITIONS = COMPILE_SHARED + LINK_SHARED + TARGET_POSITIONS + CUSTOM_POSITIONS
 
@@ -402,11 +595,19 @@ def with_tool_after_andand(strs: T.List[str], tool: str) -> T.List[str]:
 class ProjectBuilder:
     """Accumulates meson.build text and the expectations (items) of one generated project."""
 
-    def __init__(self, pid: str, lang: str, tool: str, rsp: bool = False):
+    def __init__(self, pid: str, lang: str, tool: str, rsp: bool = False, seed: int = 0,
+                 ambient: T.Optional[T.List[T.Tuple[str, str]]] = None):
         self.pid = pid
         self.lang = lang
         self.tool = tool
         self.rsp = rsp
+        self.rnd = random.Random(f'C03/{seed}/{pid}')
+        # C03V* variables of the environment the commands / `meson test' / `meson devenv' are started in
+        self.ambient: T.List[T.Tuple[str, str]] = list(ambient or [])
+        self.devenv: T.List[T.Tuple[str, T.List[EnvEntry]]] = []     # (position, entries) per add_devenv call
+        # cross build: the arguments of `exe_wrapper' in the cross file (after the dumper, which is the wrapper)
+        self.wrapper: T.Optional[T.List[str]] = None
+        self.has_xe = False
         self.lines: T.List[str] = []
         self.items: T.List[T.Dict[str, T.Any]] = []
         self.n = 0
@@ -483,33 +684,47 @@ class ProjectBuilder:
         cmd = mlist(['tool'] + [mlit(a) for a in args[1:]])
         out = f'o{k}.out'
         base = posname.split('.')[0]
-        if base == 'custom_target':
+        if posname in RAN_POSITIONS:
+            # no shell, no template, no rewrite: `&&' is the argument it is
+            args = [tool, tag] + (['x y', '$a'] if envpairs else strs)
+            rest = ', '.join(mlit(a) for a in args[1:])
+            if base == 'run_command':
+                self.lines.append(f"run_command(tool, {rest}, check: true{', env: ' + envdict if envpairs else ''})")
+            elif base == 'postconf_script':
+                self.lines.append(f'meson.add_postconf_script(tool, {rest})')
+            else:
+                self.lines.append(f'meson.add_install_script(tool, {rest})')
+            self.item(posname=posname, tlcpos='test', args=args, src=args, envspec=dict_spec(envpairs), find=('ran', tag),
+                      via=RAN_POSITIONS[posname])
+        elif base == 'custom_target':
             kws = [f'output: {mlit(out)}']
-            env: T.List[T.Tuple[str, str]] = list(envpairs)
+            env = dict_spec(envpairs)
             if posname == 'custom_target.capture':
                 kws.append('capture: true')
+            elif posname == 'custom_target.console':
+                kws.append('console: true')
             elif posname == 'custom_target.feed':
                 kws += ["input: 'in.txt'", 'feed: true']
             elif posname == 'custom_target.env':
-                env = [('C03V0', 'x y'), ('C03V1', "q'$;")]
+                env = dict_spec([('C03V0', 'x y'), ('C03V1', "q'$;")])
                 kws.append("env: {'C03V0': 'x y', 'C03V1': 'q\\'$;'}")
             elif posname == 'custom_target.envobj':
-                env = [('C03V0', 'x y:z w')]
+                env = [e_pair('set', 'C03V0', ['x y']), e_pair('append', 'C03V0', ['z w'])]
                 self.lines.append(f"env{k} = environment()\nenv{k}.set('C03V0', 'x y')\nenv{k}.append('C03V0', 'z w')")
                 kws.append(f'env: env{k}')
             elif posname == 'custom_target.capture+env':
-                env = [('C03V0', 'x y')]
+                env = dict_spec([('C03V0', 'x y')])
                 kws += ['capture: true', "env: {'C03V0': 'x y'}"]
             elif posname == 'custom_target.envvalue':
                 kws.append(f'env: {envdict}')
             self.lines.append(f"custom_target({mlit('ct%d' % k)}, {', '.join(kws)}, command: {cmd})")
-            self.item(posname=posname, tlcpos='custom', args=args, src=args, env=env, find=('out', out))
+            self.item(posname=posname, tlcpos='custom', args=args, src=args, envspec=env, find=('out', out))
         elif base == 'run_target':
             kws = []
             if envpairs:
                 kws.append(f'env: {envdict}')
             self.lines.append(f"run_target({mlit('rt%d' % k)}, command: {cmd}{''.join(', ' + x for x in kws)})")
-            self.item(posname=posname, tlcpos='custom', args=args, src=args, env=list(envpairs),
+            self.item(posname=posname, tlcpos='custom', args=args, src=args, envspec=dict_spec(envpairs),
                       find=('out', f'meson-internal__rt{k}'))
         elif base == 'generator':
             kws = [f"output: '@BASENAME@.g{k}'", f'arguments: {mlist(mlit(a) for a in args[1:])}']
@@ -521,7 +736,7 @@ class ProjectBuilder:
             self.lines.append(f"gen{k} = generator(tool, {', '.join(kws)})")
             self.lines.append(f"custom_target({mlit('gc%d' % k)}, input: gen{k}.process('in.txt'{pkw}), output: {mlit(out)}, "
                               f"command: [tool, {mlit(tag + 'c')}, '@INPUT@'])")
-            self.item(posname=posname, tlcpos='custom', args=args, src=args, env=list(envpairs),
+            self.item(posname=posname, tlcpos='custom', args=args, src=args, envspec=dict_spec(envpairs),
                       find=('suffix', f'/in.g{k}'))
         elif base in ('test', 'benchmark'):
             kws = [f'args: {mlist(mlit(a) for a in args[1:])}']
@@ -531,10 +746,82 @@ class ProjectBuilder:
                 kws.append('workdir: meson.current_source_dir()')
             self.lines.append(f"{base}({mlit(tag)}, tool, {', '.join(kws)})")
             # no shell is involved: `&&' followed by the tool is just two arguments
-            self.item(posname=posname, tlcpos='test', args=args, src=args, env=list(envpairs),
+            self.item(posname=posname, tlcpos='test', args=args, src=args, envspec=dict_spec(envpairs),
                       find=('bench' if base == 'benchmark' else 'test', tag))
         else:
             raise MachineryError('unknown position ' + posname)
+
+    def envvalues(self, consumer: str, spelling: str, strs: T.List[str]) -> None:
+        """The strings as environment VALUES of one command, in one spelling (render_env), for one consumer."""
+        posname = f'{consumer}.envvalue-{spelling}'
+        tool = self.tool
+        if consumer == 'devenv':
+            # all add_devenv() calls of a project make one environment: names are unique over the project.  A list
+            # with several elements cannot be given to add_devenv itself (its arguments are flattened), so the
+            # one-string spellings make one call per value
+            one = spelling in ('list', 'str', 'envobj-str')
+            groups = [[s] for s in strs] if one else [strs]
+            for g in groups:
+                k = self.uid()
+                pairs = [(f'C03VD{k}x{j}', s) for j, s in enumerate(g)]
+                r = render_env(spelling, pairs, k, self.rnd, self.ambient)
+                self.lines += r['pre']
+                if r['direct'] is not None and (spelling in ('list', 'str') or self.rnd.random() < 0.5):
+                    self.lines.append(f"meson.add_devenv({r['direct'][0]}{r['direct'][1]})")
+                else:
+                    self.lines.append(f"meson.add_devenv({r['expr']})")
+                self.devenv.append((posname, r['spec']))
+            return
+        single = spelling in ('str', 'envobj-str')
+        for g in ([[s] for s in strs] if single else [strs]):
+            k = self.uid()
+            tag = f'C03T{k}'
+            pairs = [(f'C03V{j}', s) for j, s in enumerate(g)]
+            r = render_env(spelling, pairs, k, self.rnd, self.ambient)
+            self.lines += r['pre']
+            args = [tool, tag, 'x y', '$a']
+            rest = mlist(mlit(a) for a in args[1:])
+            common_kw = dict(posname=posname, args=args, src=args, envsrc=spec_strings(r['spec']), envspec=r['spec'])
+            if consumer == 'test':
+                self.lines.append(f"test({mlit(tag)}, tool, args: {rest}, env: {r['expr']})")
+                self.item(tlcpos='test', find=('test', tag), **common_kw)
+            elif consumer == 'run_command':
+                self.lines.append(f"run_command(tool, {rest[1:-1]}, check: true, env: {r['expr']})")
+                self.item(tlcpos='test', find=('ran', tag), via='configure', **common_kw)
+            elif consumer == 'custom_target':
+                out = f'o{k}.out'
+                self.lines.append(f"custom_target({mlit('ct%d' % k)}, output: {mlit(out)}, command: [tool, {rest[1:]}, env: {r['expr']})")
+                self.item(tlcpos='custom', find=('out', out), **common_kw)
+            elif consumer == 'run_target':
+                self.lines.append(f"run_target({mlit('rt%d' % k)}, command: [tool, {rest[1:]}, env: {r['expr']})")
+                self.item(tlcpos='custom', find=('out', f'meson-internal__rt{k}'), **common_kw)
+            elif consumer == 'generator':
+                out = f'o{k}.out'
+                self.lines.append(f"gen{k} = generator(tool, output: '@BASENAME@.g{k}', arguments: {rest})")
+                self.lines.append(f"custom_target({mlit('gc%d' % k)}, input: gen{k}.process('in.txt', env: {r['expr']}), "
+                                  f"output: {mlit(out)}, command: [tool, {mlit(tag + 'c')}, '@INPUT@'])")
+                self.item(tlcpos='custom', find=('suffix', f'/in.g{k}'), **common_kw)
+            else:
+                raise MachineryError('unknown env consumer ' + consumer)
+
+    def wrapped(self, posname: str, strs: T.List[str]) -> None:
+        """A cross-built executable as test program / as custom-target command: what runs is the exe wrapper of the
+        cross file with ITS arguments, then the executable, then the arguments given here."""
+        assert self.wrapper is not None
+        if not self.has_xe:
+            self.lines.append("xe = executable('xe', 'main.c')")
+            self.has_xe = True
+        k = self.uid()
+        tag = f'C03T{k}'
+        args = [self.tool] + self.wrapper + ['@@BLD@@/xe', tag] + strs
+        rest = mlist(['xe'] + [mlit(a) for a in [tag] + strs])
+        if posname.startswith('test'):
+            self.lines.append(f"test({mlit(tag)}, xe, args: {mlist(mlit(a) for a in [tag] + strs)})")
+            self.item(posname=posname, tlcpos='test', args=args, src=args, envspec=[], find=('test', tag))
+        else:
+            out = f'o{k}.out'
+            self.lines.append(f"custom_target({mlit('ct%d' % k)}, output: {mlit(out)}, command: {rest})")
+            self.item(posname=posname, tlcpos='custom', args=args, src=args, envspec=[], find=('out', out))
 
     def boundary_family(self, kind: str, members: T.List[T.List[str]]) -> None:
         """Commands that all need the pickled wrapper and whose argument lists differ only in where the
@@ -545,10 +832,10 @@ class ProjectBuilder:
         for mem in members:
             k = self.uid()
             out = f'o{k}.out'
-            env: T.List[T.Tuple[str, str]] = []
+            env: T.List[EnvEntry] = []
             if kind == 'custom_target.boundary-envobj':
                 args = [tool] + mem
-                env = [('C03V0', 'x y:z w')]
+                env = [e_pair('set', 'C03V0', ['x y']), e_pair('append', 'C03V0', ['z w'])]
                 self.lines.append(f"env{k} = environment()\nenv{k}.set('C03V0', 'x y')\nenv{k}.append('C03V0', 'z w')")
                 extra = f', env: env{k}'
             else:
@@ -561,7 +848,7 @@ class ProjectBuilder:
             else:
                 self.lines.append(f"run_target({mlit('br%d' % k)}, command: {cmd})")
                 find = ('out', f'meson-internal__br{k}')
-            self.item(posname=kind, tlcpos='custom', args=args, src=args, env=env, find=find, family=fam)
+            self.item(posname=kind, tlcpos='custom', args=args, src=args, envspec=env, find=find, family=fam)
 
     def templates(self) -> None:
         """R1: the documented placeholders, embedded in odd surroundings."""
@@ -576,7 +863,16 @@ class ProjectBuilder:
         tmpl = [('@INPUT@', ['../src/in.txt']), ('@OUTPUT@', [out, out2]), ('@OUTPUT0@', [out]), ('@OUTPUT1@', [out2]),
                 ('@INPUT0@', ['../src/in.txt']), ('@OUTDIR@', ['.']), ('@PLAINNAME@', ['in.txt']), ('@BASENAME@', ['in']),
                 ('@BUILD_ROOT@', ['.']), ('@SOURCE_ROOT@', ['../src']), ('@CURRENT_SOURCE_DIR@', ['../src/'])]
-        self.item(posname='custom_target.templates', tlcpos='custom', args=args, src=[], tmpl=tmpl, env=[], find=('out', out))
+        self.item(posname='custom_target.templates', tlcpos='custom', args=args, src=[], tmpl=tmpl, envspec=[], find=('out', out))
+        # the dependency file: its name is a string of the build definition too (after @BASENAME@ / @PLAINNAME@), and
+        # @DEPFILE@ stands for its path
+        k = self.uid()
+        out = f'o{k}.out'
+        dargs = [tool, f'C03T{k}', '@DEPFILE@', 'a @DEPFILE@;', "q'@DEPFILE@\"", '-MF@DEPFILE@', '@OUTPUT@']
+        self.lines.append(f"custom_target({mlit('ct%d' % k)}, input: 'in.txt', output: {mlit(out)}, depfile: '@BASENAME@ d$x;@PLAINNAME@.d', "
+                          f"command: {mlist(['tool'] + [mlit(a) for a in dargs[1:]])})")
+        self.item(posname='custom_target.depfile', tlcpos='custom', args=dargs, src=[], envspec=[], find=('out', out),
+                  tmpl=[('@DEPFILE@', ['in d$x;in.txt.d']), ('@OUTPUT@', [out])])
 
     # -- files ----------------------------------------------------------------------------
     def files(self) -> T.Dict[str, str]:
@@ -592,8 +888,35 @@ class ProjectBuilder:
         return {'meson.build': text, 'main.c': 'int main(void) { return 0; }\n', 'in.txt': 'input\n', 'in2.txt': 'input 2\n'}
 
     def spec(self) -> T.Dict[str, T.Any]:
-        return {'pid': self.pid, 'lang': self.lang, 'rsp': self.rsp, 'files': self.files(), 'items': self.items,
-                'tool': self.tool}
+        items = list(self.items)
+        if self.devenv:
+            # one command run by `meson devenv' sees the environment all add_devenv() calls make together
+            tag = f'C03TD{self.n + 1}'
+            entries = [e for _, sp in self.devenv for e in sp]
+            owner = {}
+            for posname, sp in self.devenv:
+                for n in spec_names(sp):
+                    owner.setdefault(n, posname)
+            items.append({'id': f'{self.pid}/devenv.envvalue/{len(items)}', 'posname': 'devenv.envvalue', 'tlcpos': 'devenv',
+                          'args': [self.tool, tag, 'x y'], 'src': [self.tool, tag, 'x y'], 'envsrc': spec_strings(entries),
+                          'envspec': entries,
+                          'find': ('devenv', tag), 'owner': owner})
+        sp = {'pid': self.pid, 'lang': self.lang, 'rsp': self.rsp, 'files': self.files(), 'items': items,
+              'tool': self.tool, 'ambient': self.ambient}
+        if self.wrapper is not None:
+            # a machine file doubles every backslash before it reads the value: no escape sequence can be written, a string
+            # is the characters between the quotes
+            sp['cross'] = ("[binaries]\nc = 'cc'\nexe_wrapper = " + mlist("'" + a + "'" for a in [self.tool] + self.wrapper) + "\n"
+                           "[host_machine]\nsystem = 'linux'\ncpu_family = 'x86_64'\ncpu = 'x86_64'\nendian = 'little'\n"
+                           "[properties]\nneeds_exe_wrapper = true\n")
+        return sp
+
+
+def _test_wrapper(ts: T.Any) -> T.List[str]:
+    """The serialised test names its exe wrapper apart from the command (cross-built test programs only)."""
+    if ts.cmd_is_exe and ts.is_cross_built and ts.needs_exe_wrapper and ts.exe_wrapper is not None:
+        return list(ts.exe_wrapper.get_command())
+    return []
 
 
 def _load_pickles(builddir: Path, rawtext: str) -> T.List[T.Dict[str, T.Any]]:
@@ -606,13 +929,15 @@ def _load_pickles(builddir: Path, rawtext: str) -> T.List[T.Dict[str, T.Any]]:
         with open(p, 'rb') as f:
             es = pickle.load(f)
         env = es.env.get_env({}) if es.env is not None else {}
-        out.append({'path': cp(str(p)), 'argv': [cp(a) for a in es.cmd_args], 'env': [[cp(k), cp(v)] for k, v in env.items()]})
+        wrap = list(es.exe_wrapper.get_command()) if es.exe_wrapper is not None else []
+        out.append({'path': cp(str(p)), 'argv': [cp(a) for a in wrap + list(es.cmd_args)], 'env': [[cp(k), cp(v)] for k, v in env.items()]})
     return out
 
 
 def run_project(spec: T.Dict[str, T.Any], root: Path, tools_root: str, level3: bool) -> T.Dict[str, T.Any]:
     """Write, configure, read back, (level 3) execute; returns {'cases': [...], 'meta': {...}}."""
     common.use_repo_meson()
+    t_start = time.time()
     tools = Tools(Path(tools_root))
     pid = spec['pid']
     src = root / 'src'
@@ -621,14 +946,24 @@ def run_project(spec: T.Dict[str, T.Any], root: Path, tools_root: str, level3: b
     for name, text in spec['files'].items():
         (src / name).write_text(text, encoding='utf-8')
     env = {'MESON_RSP_THRESHOLD': '0'} if spec['rsp'] else {}
-    res = projgen.setup(src, bld, None, backend='ninja', env=env, timeout=1200)
+    # commands meson runs while it configures (run_command, postconf scripts) record themselves under cdumps/<tag>;
+    # they are started in the ambient environment like every other command
+    cdumps = root / 'cdumps'
+    cdumps.mkdir()
+    env.update(dict(tuple(x) for x in spec.get('ambient', [])))
+    env['C03_DUMP_DIR'] = str(cdumps)
+    extra: T.List[str] = []
+    if spec.get('cross'):
+        (root / 'cross.ini').write_text(spec['cross'], encoding='utf-8')
+        extra = ['--cross-file', str(root / 'cross.ini')]
+    res = projgen.setup(src, bld, None, backend='ninja', env=env, timeout=1200, extra_args=extra)
     meta = {'pid': pid, 'ok': res.ok, 'wall': round(res.wall, 2), 'error': '' if res.ok else res.error_text}
     items = spec['items']
     if not res.ok:
         log = (res.stdout + res.stderr)[-1500:]
         return {'cases': [{'id': f'{pid}/refused', 'kind': 'refused', 'items': [it['id'] for it in items]}],
                 'meta': dict(meta, log=log), 'index': {f'{pid}/refused': {'posname': items[0]['posname'] if items else '', 'src': [],
-                                                                          'refused': True, 'strs': sorted({s for it in items for s in it.get('strs', it['src'])}),
+                                                                          'refused': True, 'strs': sorted({s for it in items for s in list(it.get('strs', it['src'])) + list(it.get('envsrc', []))}),
                                                                           'pid': pid}}}
     text = (bld / 'build.ninja').read_text(encoding='utf-8')
     man = ninja_ref.parse_text(text, basedir=str(bld))
@@ -654,17 +989,39 @@ def run_project(spec: T.Dict[str, T.Any], root: Path, tools_root: str, level3: b
     cases: T.List[T.Dict[str, T.Any]] = []
     index: T.Dict[str, T.Dict[str, T.Any]] = {}
     shell_jobs: T.List[T.Tuple[T.Dict[str, T.Any], str]] = []
+    for it in items:        # the build directory is known only now
+        it['args'] = [a.replace('@@BLD@@', str(bld)) for a in it['args']]
+        it['src'] = [a.replace('@@BLD@@', str(bld)) for a in it['src']]
+    ambient = [tuple(x) for x in spec.get('ambient', [])]
+    amb_env = dict(ambient)
+    # a runner that hangs (it has been seen to, on an environment it cannot hand to a process) must not take the tier with it
+    run_tmo = 900 if os.environ.get('VERIF_TIER', 'quick') == 'quick' else 3600
+    devenv_items = []
     for it in items:
         how = it['find']
-        index[it['id']] = {'posname': it['posname'], 'src': it['src'], 'pid': pid, 'args': it['args'], 'env': it.get('env', [])}
+        index[it['id']] = {'posname': it['posname'], 'src': it['src'], 'pid': pid, 'args': it['args'],
+                           'envsrc': it.get('envsrc', []), 'envnames': spec_names(it.get('envspec', [])),
+                           'owner': it.get('owner', {})}
+        if how[0] == 'devenv':
+            devenv_items.append(it)
+            continue
+        if how[0] == 'ran':
+            c = {'id': it['id'], 'kind': 'ran', 'pos': it['tlcpos'], 'via': it['via'], 'args': [cp(a) for a in it['args']],
+                 'envspec': spec_cp(it.get('envspec', [])), 'ambient': pairs_cp(ambient), 'has_real': 0, 'real': [], 'runs': 1,
+                 'tag': how[1]}
+            if it['via'] == 'configure':
+                c['has_real'] = 1
+                c['real'] = read_dumps(cdumps / how[1])
+            cases.append(c)
+            continue
         if how[0] in ('test', 'bench'):
             ts = (benches if how[0] == 'bench' else tests).get(how[1])
             if ts is None:
                 raise MachineryError(f'{pid}: test {how[1]} missing from the serialised tests')
             obs_env = ts.env.get_env({})
             c = {'id': it['id'], 'kind': 'test', 'pos': 'test', 'args': [cp(a) for a in it['args']], 'bracket': 0,
-                 'env': [[cp(k), cp(v)] for k, v in it.get('env', [])], 'tmpl': [],
-                 'obs': {'argv': [cp(a) for a in list(ts.fname) + list(ts.cmd_args)],
+                 'envspec': spec_cp(it.get('envspec', [])), 'ambient': pairs_cp(ambient), 'tmpl': [],
+                 'obs': {'argv': [cp(a) for a in _test_wrapper(ts) + list(ts.fname) + list(ts.cmd_args)],
                          'env': [[cp(k), cp(v)] for k, v in obs_env.items()]},
                  'has_real': 0, 'real': [], 'runs': 0, 'tag': how[1]}
             cases.append(c)
@@ -682,6 +1039,7 @@ def run_project(spec: T.Dict[str, T.Any], root: Path, tools_root: str, level3: b
         if edge is None:
             raise MachineryError(f'{pid}: no build statement found for {it["id"]} ({how})')
         sp = dict(it)
+        sp['ambient'] = ambient
         rawblock = ' '.join(v for _, v in raw['edges'][edge.lineno])
         sp['pickles'] = _load_pickles(bld, rawblock)
         c = edge_case(it['id'], edge, raw, sp, ref=ref_ok)
@@ -698,6 +1056,7 @@ def run_project(spec: T.Dict[str, T.Any], root: Path, tools_root: str, level3: b
         for k in list(base_env):
             if k.startswith('C03'):
                 del base_env[k]
+        base_env.update(amb_env)
         for n, (c, cmdline) in enumerate(shell_jobs):
             if cmdline in seen:
                 recs = seen[cmdline]
@@ -714,6 +1073,9 @@ def run_project(spec: T.Dict[str, T.Any], root: Path, tools_root: str, level3: b
             c['has_real'] = 1
             c['real'] = recs
         tcases = [c for c in cases if c['kind'] == 'test']
+        if spec.get('cross') and not (bld / 'xe').exists():
+            # `meson test' wants the test program to exist; nothing ever runs it (the wrapper is the dumper)
+            shutil.copy(tools.dump, bld / 'xe')
         if tcases:
             tdir = root / 'tdumps'
             tdir.mkdir()
@@ -725,7 +1087,7 @@ def run_project(spec: T.Dict[str, T.Any], root: Path, tools_root: str, level3: b
                 rep = 2 if bench else 3
                 r = projgen.run_meson(['test', '-C', str(bld), '--no-rebuild', '--num-processes', '4', '-t', '20', '--repeat', str(rep)]
                                       + (['--benchmark'] if bench else []),
-                                      env={'C03_DUMP_DIR': str(tdir)}, timeout=1800)
+                                      env=dict(amb_env, C03_DUMP_DIR=str(tdir)), timeout=run_tmo)
                 if r.returncode != 0:
                     raise MachineryError(f'{pid}: meson test failed (rc={r.returncode}): ' + (r.stdout + r.stderr)[-600:])
                 for c in tcases:
@@ -734,8 +1096,33 @@ def run_project(spec: T.Dict[str, T.Any], root: Path, tools_root: str, level3: b
             for c in tcases:
                 c['has_real'] = 1
                 c['real'] = read_dumps(tdir / c['tag'])
+    icases = [c for c in cases if c['kind'] == 'ran' and c['via'] == 'install']
+    if level3 and icases:
+        idumps = root / 'idumps'
+        idumps.mkdir()
+        r = projgen.run_meson(['install', '-C', str(bld), '--no-rebuild', '--destdir', str(root / 'dest')],
+                              env=dict(amb_env, C03_DUMP_DIR=str(idumps)), timeout=run_tmo)
+        if r.returncode != 0:
+            raise MachineryError(f'{pid}: meson install failed (rc={r.returncode}): ' + (r.stdout + r.stderr)[-600:])
+        for c in icases:
+            c['has_real'] = 1
+            c['real'] = read_dumps(idumps / c['tag'])
+    for it in devenv_items:
+        # the developer environment: every add_devenv() of the project, seen by a command run by `meson devenv'
+        c = {'id': it['id'], 'kind': 'devenv', 'args': [cp(a) for a in it['args']], 'envspec': spec_cp(it['envspec']),
+             'ambient': pairs_cp(ambient), 'has_real': 0, 'real': []}
+        if level3:
+            df = root / 'devenv.json'
+            r = projgen.run_meson(['devenv', '-C', str(bld)] + it['args'], env=dict(amb_env, C03_DUMP=str(df)), timeout=run_tmo)
+            if r.returncode != 0:
+                raise MachineryError(f'{pid}: meson devenv failed (rc={r.returncode}): ' + (r.stdout + r.stderr)[-600:])
+            c['has_real'] = 1
+            c['real'] = read_dumps(df)
+        cases.append(c)
     for c in cases:
         c.pop('tag', None)
+    meta['total'] = round(time.time() - t_start, 2)
+    meta['cases'] = len(cases)
     return {'cases': cases, 'meta': meta, 'index': index}
 
 
@@ -810,22 +1197,70 @@ def plan_projects(tool: str, tier: str, seed: int, alphabet: T.Sequence[int]) ->
                 pb.build_target(['a b'], ['a\\b'], ['a b'])
             specs.append(pb.spec())
     # ---- custom-command projects
-    nl_free = {'test.args', 'test.envvalue', 'test.workdir', 'benchmark.args'}
+    nl_free = {'test.args', 'test.envvalue', 'test.workdir', 'benchmark.args'} | set(RAN_POSITIONS)
     jobs: T.List[T.Tuple[str, T.List[str]]] = []
     for pi, posname in enumerate(CUSTOM_POSITIONS):
         pool = shuffled(strs if posname in nl_free else plain, 11 + pi)
-        if posname in ('custom_target.env', 'custom_target.envobj', 'custom_target.capture+env', 'test.workdir', 'benchmark.args') and not quick:
+        if posname in ('custom_target.env', 'custom_target.envobj', 'custom_target.capture+env', 'test.workdir', 'benchmark.args',
+                       'custom_target.console', 'postconf_script.args', 'install_script.args') and not quick:
             pool = pool[:len(pool) // 3]
         width = 16 if posname.endswith('.envvalue') else per
         for chunk in common.chunks(pool, width):
             jobs.append((posname, list(chunk)))
-    nproj = 1 if quick else max(1, min(24, len(jobs) // 60))
+    nproj = 3 if quick else max(1, min(24, len(jobs) // 60))
+    # ---- environment values in every spelling (ENV_SPELLINGS; the dictionary is the `.envvalue' positions above):
+    # tests meet every string in every spelling; the build-time consumers share the chunks of a spelling in
+    # rotation with run_command (every consumer meets every spelling, every string meets every spelling in one of them); the
+    # developer environment takes every string in one spelling
+    envjobs: T.List[T.Tuple[str, str, T.List[str]]] = []
+    rotation = ENV_BUILD_CONSUMERS + ['run_command']
+    for si, spelling in enumerate(ENV_SPELLINGS):
+        single = spelling in ('str', 'envobj-str')
+        tpool = shuffled(strs, 41 + si)
+        bpool = shuffled(plain, 51 + si)
+        if not quick:
+            tpool = tpool[:len(tpool) // (8 if single else 1 if spelling == 'list' else 3)]
+            bpool = bpool[:len(bpool) // 3]
+        if single:
+            bpool = bpool[:12 if quick else 60]
+        for chunk in common.chunks(tpool, 16):
+            envjobs.append(('test', spelling, list(chunk)))
+        for ci, chunk in enumerate(common.chunks(bpool, 4 if single else 16)):
+            envjobs.append((rotation[(ci + si + seed) % len(rotation)], spelling, list(chunk)))
+    for ci, chunk in enumerate(common.chunks(shuffled(strs, 61), 16)):
+        envjobs.append(('devenv', ENV_SPELLINGS[(ci + seed) % len(ENV_SPELLINGS)], list(chunk)))
+    nonempty = [s for s in strs if s]
     for pj in range(nproj):
-        pb = ProjectBuilder(f'u{pj}', '', tool)
+        arnd = random.Random(seed * 104729 + pj)
+        pb = ProjectBuilder(f'u{pj}', '', tool, seed=seed,
+                            ambient=[(f'C03VA{j}', arnd.choice(nonempty)) for j in range(3)])
         for posname, chunk in jobs[pj::nproj]:
             pb.custom(posname, chunk)
+        for consumer, spelling, chunk in envjobs[pj::nproj]:
+            pb.envvalues(consumer, spelling, chunk)
         if pj == 0:
             pb.templates()
+        specs.append(pb.spec())
+    # ---- cross builds: the arguments of the exe wrapper (cross file) and the arguments that follow a cross-built
+    # executable in a test / a custom-target command; one wrapper per project
+    wpool = [w for w in shuffled(strs, 81) if "'" not in w and '\n' not in w]      # what a machine file can spell
+    xpool = shuffled(strs, 83)
+    nx = 2 if quick else 10
+    xchunks = list(common.chunks(xpool, per))
+    # the command of a custom target loses its backslashes (R2) and the wrapper's arguments are not part of it: the
+    # wrappers with a backslash in an argument (odd projects) meet tests only
+    w_nobs = [w for w in wpool if '\\' not in w]
+    w_bs = [w for w in wpool if '\\' in w]
+    for pj in range(nx):
+        pb = ProjectBuilder(f'x{pj}', 'c', tool, seed=seed)
+        pb.wrapper = ['C03W'] + w_nobs[pj::nx] + (w_bs[pj // 2::max(1, nx // 2)] if pj % 2 else [])
+        pb.wrapped('test.args/exe_wrapper', ['a b'])
+        custom_ok = not any('\\' in w for w in pb.wrapper)
+        for ci, chunk in enumerate(xchunks[pj::nx]):
+            if ci % 2 == 0 or not custom_ok:
+                pb.wrapped('test.args/exe_wrapper', list(chunk))
+            else:
+                pb.wrapped('custom_target/exe_wrapper', [a for a in chunk])
         specs.append(pb.spec())
     # ---- argument-boundary families: several serialised commands in ONE build directory whose argv differ only
     # in where the boundaries fall (a name derived from the concatenated arguments would make them collide)
@@ -885,6 +1320,18 @@ def plan_projects(tool: str, tier: str, seed: int, alphabet: T.Sequence[int]) ->
             sp = pb.spec()
             sp['nlpos'] = posname
             specs.append(sp)
+        # the environment spellings of the build-time consumers: one project per consumer
+        for ci, consumer in enumerate(ENV_BUILD_CONSUMERS):
+            pb = ProjectBuilder(f'ne{ci}', '', tool, seed=seed, ambient=[('C03VA0', 'amb\nient')])
+            for si, spelling in enumerate(ENV_SPELLINGS):
+                pool = shuffled(withnl, 71 + ci * 7 + si)[:6 if quick else 40]
+                if spelling in ('str', 'envobj-str'):
+                    pool = pool[:3 if quick else 12]
+                for chunk in common.chunks(pool, 8):
+                    pb.envvalues(consumer, spelling, list(chunk))
+            sp = pb.spec()
+            sp['nlpos'] = f'{consumer}.envvalue-spellings'
+            specs.append(sp)
     return specs
 
 
@@ -936,7 +1383,13 @@ def report(chk: Check, v: T.Dict[str, T.Any], case: T.Dict[str, T.Any], ix: T.Di
     if clause.startswith(MODEL_PREFIX):
         raise MachineryError(f'environment models disagree ({clause}) on case {v["id"]}: ' + json.dumps(detail['verdict'], ensure_ascii=False)[:900])
     kind = case.get('kind')
-    if kind in ('fn', 'rspreal'):
+    if kind == 'envfn':
+        exp = _txt(v.get('exp') or [])
+        detail['envfn'] = {'f': case.get('f'), 'ambient': [[uncp(a), uncp(b)] for a, b in case.get('ambient', [])],
+                           'spec': [{'form': e['form'], 'op': e['op'], 'name': uncp(e['name']), 'values': [uncp(x) for x in e['values']],
+                                     'sep': uncp(e['sep'])} for e in case.get('envspec', [])]}
+        sig = f'L1:{clause}:{v["f"]}:{cls(exp[0] if exp and isinstance(exp[0], str) else "")}'
+    elif kind in ('fn', 'rspreal'):
         ss = [uncp(s) for s in case.get('ss', [])]
         detail['inputs'] = ss
         sig = f'L1:{clause}:{v["f"]}:{"|".join(sorted({cls(s) for s in ss}))}'
@@ -961,13 +1414,18 @@ def report(chk: Check, v: T.Dict[str, T.Any], case: T.Dict[str, T.Any], ix: T.Di
             sig = f'{clause}@{pos}:ch={c}'
         elif clause.startswith('Wrapper:') or clause in ('SentinelLost', 'SentinelOrder', 'EmptyCommandLine', 'RuntimeProcessCount'):
             sig = f'{clause}@{pos}'
-        elif clause == 'RuntimeEnv' and kind == 'test':
-            sig = f'{clause}@{pos}/test'
         elif clause in ('EnvDiffers', 'RuntimeEnv'):
-            env = ix.get('env') or []
-            val = env[k - 1][1] if 0 < k <= len(env) else ''
+            # k: index into the names the specification mentions (order of first mention); exp: the value prescribed
+            names = ix.get('envnames') or []
+            name = names[k - 1] if 0 < k <= len(names) else ''
+            exp = _txt(v.get('exp') or [])
+            val = exp[0] if exp and isinstance(exp[0], str) else ''
+            if kind == 'devenv':
+                pos = (ix.get('owner') or {}).get(name, pos)
             sig = f'{clause}@{pos}/{v["f"]}:{cls(val)}'
-            detail['env_name'] = env[k - 1][0] if 0 < k <= len(env) else ''
+            detail['env_name'] = name
+            detail['envspec'] = [{kk: _txt(x) for kk, x in e.items()} for e in case.get('envspec', [])]
+            detail['ambient'] = _txt(case.get('ambient', []))
         else:
             s = src[k - 1] if 0 < k <= len(src) else None
             sig = f'{clause}@{pos}/{v["f"]}:{cls(s) if s is not None else ("beyond-last" if k > len(src) > 0 else "?")}'
@@ -991,6 +1449,12 @@ INVARIANT RspViaNinjaRoundTrip
 INVARIANT PairRoundTrip
 INVARIANT AndAndSeparates
 INVARIANT EnvAssignRoundTrip
+INVARIANT EnvStringSplitsAtFirstEqOnly
+INVARIANT EnvSpellingsAgree
+INVARIANT EnvValueExact
+INVARIANT EnvJoin
+INVARIANT EnvAlgebra
+INVARIANT EnvStringThroughEnvWord
 INVARIANT NoTextDenotesNewline
 INVARIANT ShellCarriesNewline
 INVARIANT NoSilentMeta
@@ -1024,7 +1488,9 @@ def main(chk: Check) -> None:
     chk.rule = ('level 1: every text over the model alphabet (14 code points incl. space $ : quotes backslash # ; * & | newline '
                 'e-acute) up to N through the real quoting functions and manifest writer; level 2/3: every string of the tier '
                 '(all texts up to length 1 (quick) / 3 (thorough), 70 special strings, seeded random texts of length 2-6) in '
-                'every command position. Non-trivial = distinct (position, string) placements whose string needs quoting in '
+                'every command position, environment values included (7 spellings + dictionary x test / custom_target / '
+                'run_target / generator.process / add_devenv, over an ambient environment). Non-trivial = distinct (position, '
+                'string) placements whose string needs quoting in '
                 'at least one layer (anything but [A-Za-z0-9_@%+=:,./-]+).')
     res = run_tlc(SPECS / 'ninja', 'ArgFidelity_MC', cfg_text=MC_CFG % n_mc, collect=['alphabet.json'], timeout=7200,
                   allow_violation=False)
@@ -1049,6 +1515,11 @@ def main(chk: Check) -> None:
         with ProcessPoolExecutor(max_workers=common.NCPU) as ex:
             for part in ex.map(_worker_level1, jobs):
                 l1cases.extend(part)
+        estep = max(100, len(singles) // (common.NCPU * 2) + 1)
+        with ProcessPoolExecutor(max_workers=common.NCPU) as ex:
+            for part in ex.map(_worker_envfn, [(singles[lo:lo + estep], f'{lo}', chk.seed, n_l1 - 1) for lo in range(0, len(singles), estep)]):
+                l1cases.extend(part)
+        chk.extra['level1_env_cases'] = sum(1 for c in l1cases if c['kind'] == 'envfn')
         rs = [s for s in singles if len(s) <= (2 if quick else 3)] + SPECIALS
         l1cases += rsp_real_cases(tools, list(dict.fromkeys(rs)), top / 'rspreal')
         chk.evaluations += len(l1cases)
@@ -1078,11 +1549,12 @@ def main(chk: Check) -> None:
                     ix['error'] = out['meta'].get('error')
                     index[cid] = ix
                 allcases.extend(out['cases'])
+        chk.extra['project_walls'] = {m['pid']: [m.get('wall'), m.get('total'), m.get('cases')] for m in metas}
         chk.extra['projects_configured'] = sum(1 for m in metas if m.get('ok'))
         chk.extra['projects_refused'] = [m['pid'] + ': ' + m.get('error', '')[:160] for m in metas if not m.get('ok')]
         placements = 0
         for cid, ix in index.items():
-            for s in ix.get('src') or []:
+            for s in list(ix.get('src') or []) + list(ix.get('envsrc') or []):
                 if isinstance(s, str) and s and cls(s) != 'plain':
                     placements += 1
                     chk.nontriv(ix['posname'] + '|' + s)
@@ -1104,7 +1576,13 @@ def main(chk: Check) -> None:
         'generator() arguments are treated like custom-target commands (backslash -> /), they share the command evaluation path',
         "an element that is exactly '&&' is expected to separate commands wherever a shell runs the command line and to be a plain "
         'argument in response files, the pickled wrapper and meson test (no shell there); it is always followed by the dumper path',
-        'custom targets with rspable=True (only set by modules) and exe wrappers of cross builds are not generated',
+        'custom targets with rspable=True (only set by modules) are not generated',
+        'cross builds: the exe wrapper is the dumper itself and the cross-built executable is never built or run (a copy of the '
+        "dumper stands where `meson test' wants the program to exist); a machine file cannot spell a string with a single quote or a "
+        'newline (every backslash is doubled before the value is read), such strings are not placed in the exe_wrapper position; '
+        'wrappers with a backslash in an argument meet tests only (the custom-target rewrite R2 is specified for the command)',
+        'meson.add_dist_script() is not exercised here (it needs a VCS checkout and `meson dist\', see X12); run_command(), '
+        'add_postconf_script() and add_install_script() arguments are strings only (no files / targets)',
         "a '|' inside a path of a build line is C04's finding and is not judged here (ninja_quote(.., True) is otherwise checked)",
         'response-file mode is forced with MESON_RSP_THRESHOLD=0; its level-3 validation is RspSplit vs the real gcc driver (-wrapper), not a compile',
         'static_library link_args are ignored by meson by design and are not a position',
@@ -1113,6 +1591,13 @@ def main(chk: Check) -> None:
         'option-level -D forms skip macro bodies the preprocessor itself rejects (## at either end, /*), because the compiler sanity '
         'check would fail before anything is generated',
         'a configure-time refusal is judged a violation only for projects that differ from an accepted baseline by their argument strings',
+        "environment values: names are plain identifiers (C03V...); a 'NAME=VALUE' text always contains an `=' and a non-empty "
+        'NAME (the validator refuses others); one list / dictionary never mentions a name twice (the manual does not say whether a '
+        'repeated name replaces or accumulates under method: append/prepend)',
+        "meson.add_devenv() is given a list of 'NAME=VALUE' only with one element: its positional arguments are flattened, a longer "
+        "list is refused ('takes exactly 1 arguments') although the manual lists array[str] - reported, not judged here",
+        'the ambient environment defines only non-empty values (the manual describes append/prepend for a variable that has a value '
+        'or is not defined, not for an empty one); env.unset() and add_test_setup(env:) are not generated',
     ]
 
 
@@ -1152,6 +1637,10 @@ def replay(chk: Check, data: T.Dict[str, T.Any]) -> None:
             want = det.get('case_id')
             cases = [c for c in out['cases'] if c['id'] == want or c['kind'] == 'refused'] or out['cases']
             judge(chk, cases, index, 'replay')
+        elif 'envfn' in det:
+            common.use_repo_meson()
+            ef = det['envfn']
+            judge(chk, [envfn_case('Ereplay', ef['f'], ef['spec'], [tuple(x) for x in ef['ambient']])], {}, 'replay')
         elif 'inputs' in det:
             cases = _worker_level1(([det['inputs']], 'replay'))
             judge(chk, cases, {}, 'replay')
